@@ -850,3 +850,37 @@ class _representations_u:
                    forall(0, n, lambda i: And(cl(i) == l(i), cr(i) == r(i), sb[i, 0] == l(i), sb[i, 1] == r(i))),
                    attr(c, "_includes_right_edge") == attr(old.self, "_includes_right_edge"),
                    attr(s, "_includes_right_edge") == attr(old.self, "_includes_right_edge"))
+
+
+# ---------------------------------------------------------------------------------------------- transformed 1-D histograms (C15, C03)
+
+@contract("physt.special_histograms:TransformedHistogramMixin.fill", props=["C15", "C03"], name="radial / azimuthal fill[any bin count]")
+class _special_fill_u:
+    """one Cartesian point into a radial or azimuthal histogram with ANY number of bins: it is transformed exactly once and the bin
+    of its true coordinate gains the weight"""
+    probe = "quantifier-free"
+
+    def configs():
+        return [{"cls": "RadialHistogram", "d": 2}, {"cls": "RadialHistogram", "d": 3}, {"cls": "AzimuthalHistogram", "d": 2}]
+
+    def inputs(b):
+        n = nbins(b)
+        b.assume(n >= 1)
+        h = hist1d_t(b, "h", n, "int64")
+        from pyvc.values import obj_dict
+        o = b.obj("physt.special_histograms:" + b.cfg.cls, **{k: attr(h, k) for k in ("_binnings", "_frequencies", "_errors2", "_missed", "_dtype", "_meta_data", "keep_missed", "_stats")})
+        return dict(self=o, value=b.array("p", (b.cfg.d,)))
+
+    @ensures("the_bin_of_the_true_coordinate_gains_the_weight")
+    def _(a, old, result):
+        from .special import expected
+        q = expected(a._cfg_cls, elems(old.value))[0]
+        n = count_of(old.self)
+        bins = attr(attr(old.self, "_binnings")[0], "_bins")
+        f0, f1, e0, e1 = Fq(old.self), Fq(a.self), Eq(old.self), Eq(a.self)
+        m0, m1 = elems(attr(old.self, "_missed")), elems(attr(a.self, "_missed"))
+        if result is None:
+            return And(exists_gap(bins, n, q), forall(0, n, lambda i: And(f1[i] == f0[i], e1[i] == e0[i])), isnan(m1[0]), isnan(m1[1]))
+        return And(binof_sound(bins, n, q, result),
+                   forall(0, n, lambda i: And(f1[i] == f0[i] + If(i == result, 1, 0), e1[i] == e0[i] + If(i == result, 1, 0))),
+                   m1[0] == m0[0] + If(result == -1, 1, 0), m1[1] == m0[1] + If(result == n, 1, 0), same(elems(a.value), elems(old.value)))
